@@ -32,7 +32,10 @@ REQUIRED = ["waiters_fired", "fired_on_later_register", "fired_immediately",
             "waiters_declared_twice", "dependencies_named_by_a_bare_string",
             "listen_args_used", "sinks_without_the_notification_method",
             "deferrals_through_the_event", "quit_from_inside_a_handler",
-            "lifecycle_handlers_that_raise"]
+            "lifecycle_handlers_that_raise",
+            "component_registered_events_halted",
+            "component_registered_listeners_that_failed",
+            "component_registered_announcements_compared"]
 TIMEOUT = {"quick": 600, "thorough": 5400}
 
 # (names with underscores, one of them extending another name: handler names
@@ -119,6 +122,24 @@ class Rdv (object):
     self.EmptyComp = EmptyComp
     self.EmptyPlain = EmptyPlain
     self.reg_clock = 0
+    # other parties listening to the core's own ComponentRegistered event (as
+    # some stock components do): a passive one, one that halts the event, one
+    # whose handler fails.  What they do with the announcement is between
+    # them; the waiters are owed their callbacks all the same.
+    self.announced = []
+    regl = case.get("regl")
+    if regl:
+      rep.count("histories_with_a_listener_on_component_registered")
+      def on_registered (e):
+        self.announced.append((e.name, e.component))
+        if regl == "halts":
+          rep.count("component_registered_events_halted")
+          return R.EventHalt
+        if regl == "raises":
+          rep.count("component_registered_listeners_that_failed")
+          raise RuntimeError("a ComponentRegistered handler fails")
+      self.core.addListenerByName("ComponentRegistered", on_registered,
+                                  priority=case.get("regl_prio", 0))
 
   def have (self, n):
     # (the monitor's own record of what was registered - asking the core
@@ -398,6 +419,15 @@ class Rdv (object):
           an = c if s.get("short") else "_%s_" % c
           if getattr(s["sink"], an, None) is not self.registered.get(c):
             self.mon.fire("dependency attribute not set", c)
+    if self.case.get("regl"):
+      # every registration was announced once, with its name and component
+      self.rep.count("component_registered_announcements_compared")
+      got = [(n, id(c)) for n, c in self.announced]
+      exp = [(n, id(c)) for n, c in self.registered.items()]
+      if sorted(got) != sorted(exp):
+        self.mon.fire("registrations and ComponentRegistered events differ",
+                      "announced %r, registered %r" %
+                      ([n for n, _ in got], [n for n, _ in exp]))
     dispose_core(self.core)
 
 
@@ -678,7 +708,12 @@ def gen_rdv_random (rng, n):
       #  these names is not the component: callbacks only)
       ops = rename([o for o in ops if o[0] not in ("ltd", "emit")], mp)
       if not ops: ops = [["reg", "cb", "plain"]]
-    yield dict(kind="rdv", ops=ops, rv=rng.randrange(4))
+    c = dict(kind="rdv", ops=ops, rv=rng.randrange(4))
+    r = rng.random()
+    if r < 0.3:
+      c["regl"] = rng.choice(["passive", "halts", "raises"])
+      c["regl_prio"] = rng.choice([0, 0, 1000000, -1000000])
+    yield c
 
 
 def gen_life (rng, n):
